@@ -25,7 +25,8 @@ RULE = ('case = profile A: valid specification, written once per enumerated faul
         'distinct = case digest')
 FRINGE = ['rows_unequal_1', 'rows_unequal_longer', 'rows_unequal_shorter', 'dtype_int64', 'dtype_float16', 'dtype_bool', 'ndim3',
           'missing_dataset', 'long_name_300', 'long_units', 'non_ascii_text', 'non_ascii_name', 'uvari_out_of_range',
-          'unorm_out_of_range', 'no_origin', 'no_frames', 'empty_list', 'header_id_66', 'slong_out_of_range', 'empty_coordinates']
+          'unorm_out_of_range', 'no_origin', 'no_frames', 'empty_list', 'header_id_66', 'slong_out_of_range', 'empty_coordinates',
+          'window_past_end', 'window_empty', 'copy_number_256', 'origin_reference_2p30', 'record_length_odd', 'sul_sequence_10000']
 
 
 def gen_case(rng, tier, avoid):
@@ -95,6 +96,23 @@ def gen_case(rng, tier, avoid):
                         'kwargs': {'text': []}})
         elif fr == 'empty_coordinates':
             ops.append({'op': 'add', 'lf': lfi['lf'], 'kind': 'axis', 'h': 'fringe1', 'name': 'AX', 'kwargs': {'coordinates': []}})
+        elif fr == 'window_past_end':
+            params['window'] = {'from_idx': rc['shape'][0] + rng.choice([0, 1, 5])}
+        elif fr == 'window_empty':
+            params['window'] = {'from_idx': 1, 'to_idx': rng.choice([1, 0])}
+        elif fr == 'copy_number_256':
+            for k in range(257):
+                ops.append({'op': 'add', 'lf': lfi['lf'], 'kind': 'zone', 'h': 'cn%d' % k, 'name': 'SAME', 'kwargs': {}})
+        elif fr == 'origin_reference_2p30':
+            ops.append({'op': 'add', 'lf': lfi['lf'], 'kind': 'zone', 'h': 'fringe1', 'name': 'Z', 'kwargs': {'origin_reference': 2 ** 30}})
+        elif fr == 'record_length_odd':
+            for op in ops:
+                if op.get('op') == 'new_file':
+                    op['kwargs']['max_record_length'] = rng.choice([8191, 33, 16386, 18])
+        elif fr == 'sul_sequence_10000':
+            for op in ops:
+                if op.get('op') == 'new_file':
+                    op['kwargs']['sul_sequence_number'] = rng.choice([10000, 123456])
         elif fr == 'header_id_66':
             for op in ops:
                 if op.get('op') == 'add_lf':
@@ -124,9 +142,11 @@ def check_case(case, ex):
     fid, mrl = C.fid_of(hist), C.mrl_of(hist)
     stats = C.new_stats(case)
     out = []
-    w = C.wop(fid, output_chunk_size=C.resolve_ocs(Pm['ocs'], mrl, 0), count_lines=True)
+    w = C.wop(fid, output_chunk_size=C.resolve_ocs(Pm['ocs'], max(mrl, 20) if isinstance(mrl, int) else 8192, 0), count_lines=True)
     if Pm.get('data'):
         w['data'] = Pm['data']
+    if Pm.get('window'):
+        w.update(Pm['window'])
 
     def judge(sc, res, fp):
         st = C.last_write(res)
